@@ -7,22 +7,40 @@
 #include <memory>
 #include <tbox/event/loop.h>
 #include <tbox/event/timer_event.h>
+#include <tbox/eventx/timer_pool.h>
 #include <tbox/base/log_output.h>
 
 using namespace tbox::event;
 
 struct Act { char kind; size_t j; uint64_t ms; bool oneshot; };
-static std::vector<TimerEvent*> objs;
+static std::vector<TimerEvent*> objs;          // plain TimerEvents (nullptr = destroyed, or a TimerPool-owned timer)
+static std::vector<char> pool_kind;            // 0 = plain object, 'a' = TimerPool::doAfter, 'e' = TimerPool::doEvery
+static std::vector<bool> pool_alive;
+static std::vector<tbox::eventx::TimerPool::TimerToken> pool_tok;
+static tbox::eventx::TimerPool *pool = nullptr;
 static std::vector<std::vector<Act>> scripts;
 static Loop *loop = nullptr;
 
 static std::string bits() {
     std::string s;
-    for (auto *t : objs) s.push_back(t == nullptr ? 'x' : (t->isEnabled() ? '1' : '0'));
+    for (size_t i = 0; i < objs.size(); ++i) {
+        if (pool_kind[i]) { s.push_back(pool_alive[i] ? 'p' : 'x'); continue; }
+        auto *t = objs[i];
+        s.push_back(t == nullptr ? 'x' : (t->isEnabled() ? '1' : '0'));
+    }
     return s.empty() ? "-" : s;
 }
 
+static int mode = 0;    // 0 undecided, 1 = plain TimerEvent case, 2 = TimerPool case (a case never mixes the two)
+static int pool_cancel(size_t j) {
+    if (j >= objs.size() || !pool_kind[j]) return 0;
+    bool r = pool->cancel(pool_tok[j]);
+    if (r) pool_alive[j] = false;
+    return r ? 1 : 0;
+}
+
 static int apply(const Act &a) {
+    if (a.kind == 'c') return pool_cancel(a.j);
     if (a.j >= objs.size() || objs[a.j] == nullptr) return 0;   // dead or unknown object: no-op (model: alive = false)
     TimerEvent *t = objs[a.j];
     switch (a.kind) {
@@ -48,17 +66,18 @@ static bool parse_act(const std::string &w, Act &a) {
         a.oneshot = (m == "o");
         return a.ms >= 1;
     }
-    if (a.kind != 'e' && a.kind != 'd' && a.kind != 'x') return false;
+    if (a.kind != 'e' && a.kind != 'd' && a.kind != 'x' && a.kind != 'c') return false;
     uint64_t j; if (!vh::to_u64(w.substr(1), j)) return false; a.j = j;
     return true;
 }
 
-static bool parse_script(const std::string &w, std::vector<Act> &out, size_t self) {
+static bool parse_script(const std::string &w, std::vector<Act> &out, size_t self, bool pool_script) {
     out.clear();
     if (w == "-") return true;
     std::stringstream ss(w); std::string item;
     while (std::getline(ss, item, ',')) {
         Act a; if (!parse_act(item, a)) return false;
+        if ((a.kind == 'c') != pool_script) return false;      // pool callbacks only cancel pool timers; plain ones never do
         if (a.kind == 'x' && a.j == self) return false;   // destroying oneself inside one's own callback is outside the property
         out.push_back(a);
     }
@@ -66,8 +85,9 @@ static bool parse_script(const std::string &w, std::vector<Act> &out, size_t sel
 }
 
 static void reset_all() {
+    if (pool) pool->cleanup();
     for (auto *&t : objs) { delete t; t = nullptr; }
-    objs.clear(); scripts.clear();
+    objs.clear(); scripts.clear(); pool_kind.clear(); pool_alive.clear(); pool_tok.clear(); mode = 0;
 }
 
 int main(int argc, char **argv) {
@@ -78,6 +98,7 @@ int main(int argc, char **argv) {
   while (!eof) {
     engine = next_engine;
     loop = Loop::New(engine);
+    pool = new tbox::eventx::TimerPool(loop);
     vh::LoopDriver drv(loop);
     bool pending_adv = false;
     drv.step = [&]() -> bool {
@@ -94,17 +115,43 @@ int main(int argc, char **argv) {
             if (w[1] != engine) { next_engine = w[1]; return false; }
             return true;
         }
+        bool is_pool_op = (w[0] == "pafter" || w[0] == "pevery" || w[0] == "pcancel" || w[0] == "pcleanup");
+        bool is_plain_op = (w[0] == "new" || w[0] == "init" || w[0] == "en" || w[0] == "dis" || w[0] == "del");
+        if ((is_pool_op && mode == 1) || (is_plain_op && mode == 2)) { std::cout << "bad-op\n"; return true; }
         if (w[0] == "new" && w.size() == 2) {
             size_t id = objs.size();
             std::vector<Act> sc;
-            if (!parse_script(w[1], sc, id)) { std::cout << "bad-op\n"; return true; }
+            if (!parse_script(w[1], sc, id, false)) { std::cout << "bad-op\n"; return true; }
+            mode = 1;
             TimerEvent *t = loop->newTimerEvent("verif");
-            objs.push_back(t); scripts.push_back(sc);
+            objs.push_back(t); scripts.push_back(sc); pool_kind.push_back(0); pool_alive.push_back(false); pool_tok.emplace_back();
             t->setCallback([id] {
                 std::cout << "F " << id << " en=" << bits() << "\n";
                 std::vector<Act> sc = scripts[id];          // copy: the script may not change, but stay safe
                 for (auto &a : sc) apply(a);
             });
+            std::cout << "P ret=1 en=" << bits() << "\n";
+        } else if ((w[0] == "pafter" || w[0] == "pevery") && w.size() == 3 && vh::to_u64(w[1], n) && n >= 1 && n <= 100000) {
+            size_t id = objs.size();
+            std::vector<Act> sc;
+            if (!parse_script(w[2], sc, id + 1000000, true)) { std::cout << "bad-op\n"; return true; }
+            mode = 2;
+            bool after = (w[0] == "pafter");
+            objs.push_back(nullptr); scripts.push_back(sc); pool_kind.push_back(after ? 'a' : 'e'); pool_alive.push_back(true); pool_tok.emplace_back();
+            auto cb = [id, after] {
+                if (after) pool_alive[id] = false;           // a doAfter timer is gone once it has fired
+                std::cout << "F " << id << " en=" << bits() << "\n";
+                std::vector<Act> sc = scripts[id];
+                for (auto &a : sc) apply(a);
+            };
+            pool_tok[id] = after ? pool->doAfter(std::chrono::milliseconds(n), cb) : pool->doEvery(std::chrono::milliseconds(n), cb);
+            std::cout << "P ret=1 en=" << bits() << "\n";
+        } else if (w[0] == "pcancel" && w.size() == 2 && vh::to_u64(w[1], n)) {
+            int r = pool_cancel(n); mode = 2;
+            std::cout << "P ret=" << r << " en=" << bits() << "\n";
+        } else if (w[0] == "pcleanup" && w.size() == 1) {
+            pool->cleanup(); mode = 2;
+            for (size_t i = 0; i < objs.size(); ++i) if (pool_kind[i]) pool_alive[i] = false;
             std::cout << "P ret=1 en=" << bits() << "\n";
         } else if (w[0] == "adv" && w.size() == 2 && vh::to_u64(w[1], n) && n <= 100000) {
             vt::advance_ms((int64_t)n);
@@ -124,6 +171,7 @@ int main(int argc, char **argv) {
         return true;
     };
     drv.run();
+    delete pool; pool = nullptr;
     delete loop;
   }
     return 0;
